@@ -65,7 +65,9 @@ def subscribe(
     Raises:
         RuntimeError: on invalid operation.
     """
-    instrumentation = instrumentation or Instrumentation()
+    instrumentation = (
+        Instrumentation() if instrumentation is None else instrumentation
+    )
 
     operation, root_type = get_operation_with_type(
         schema, document, operation_name
